@@ -46,13 +46,11 @@ type Case struct {
 	Layout string `json:"layout,omitempty"`
 }
 
-// curLayout is the layout compareMeasure / checkDistance give to the values they hand to orb; set by
-// checkCase (and the enumerations) for the duration of one case. Tests in this package are sequential.
-var curLayout string
-
-func layoutName() string {
-	if curLayout == "shared" || curLayout == "spare" {
-		return curLayout
+// layoutName names a Case.Layout value. The layout travels as a parameter (no package state: the
+// checks are pure functions of the case, which is what lets TestPropConcurrent run them in parallel).
+func layoutName(l string) string {
+	if l == "shared" || l == "spare" {
+		return l
 	}
 	return "plain"
 }
@@ -114,7 +112,7 @@ func (c Case) scaled() Case {
 		return c
 	}
 	f := func(p orb.Point) orb.Point { return orb.Point{math.Ldexp(p[0], c.K), math.Ldexp(p[1], c.K)} }
-	out := Case{Op: c.Op, T: gen.FromPt(f(c.T.Pt()))}
+	out := Case{Op: c.Op, T: gen.FromPt(f(c.T.Pt())), Layout: c.Layout}
 	if c.G.V != nil {
 		out.G = gen.G{V: mapPoints(c.G.V, f)}
 	}
@@ -128,16 +126,16 @@ func finite(v float64) bool { return !math.IsNaN(v) && !math.IsInf(v, 0) }
 
 // ---------------------------------------------------------------- measure
 
-func compareMeasure(g orb.Geometry, m measure, what string) error {
+func compareMeasure(lay string, g orb.Geometry, m measure, what string) error {
 	// orb sees a laid-out copy; g itself (what the model m was computed from) is never handed over
-	lg, gd := layout.LayOut(g, curLayout)
+	lg, gd := layout.LayOut(g, lay)
 	c, a := planar.CentroidArea(lg)
 	if err := gd.Check(); err != nil {
-		return fmt.Errorf("%s: CentroidArea(%s) [%s layout]: %v", what, gen.Canon(g), layoutName(), err)
+		return fmt.Errorf("%s: CentroidArea(%s) [%s layout]: %v", what, gen.Canon(g), layoutName(lay), err)
 	}
 	a2 := planar.Area(lg)
 	if err := gd.Check(); err != nil {
-		return fmt.Errorf("%s: Area(%s) [%s layout]: %v", what, gen.Canon(g), layoutName(), err)
+		return fmt.Errorf("%s: Area(%s) [%s layout]: %v", what, gen.Canon(g), layoutName(lay), err)
 	}
 	if math.Float64bits(a2) != math.Float64bits(a) {
 		return fmt.Errorf("%s: Area = %v but CentroidArea's area = %v", what, a2, a)
@@ -165,7 +163,7 @@ func compareMeasure(g orb.Geometry, m measure, what string) error {
 			return fmt.Errorf("%s: centroid = %v, exact (%v, %v) (tolerance %g)", what, c, m.c[0], m.c[1], m.tolC)
 		}
 		if r, ok := g.(orb.Ring); ok && isConvex(r) {
-			b := r.Bound()
+			b := boundOf(r)
 			t := m.tolC // the same tolerance as the centroid itself (1e-9*scale in the exact domain)
 			if c[0] < b.Min[0]-t || c[0] > b.Max[0]+t || c[1] < b.Min[1]-t || c[1] > b.Max[1]+t {
 				return fmt.Errorf("%s: centroid %v of a convex ring is outside its bound %v", what, c, b)
@@ -181,7 +179,7 @@ func compareMeasure(g orb.Geometry, m measure, what string) error {
 	}
 	l := planar.Length(lg)
 	if err := gd.Check(); err != nil {
-		return fmt.Errorf("%s: Length(%s) [%s layout]: %v", what, gen.Canon(g), layoutName(), err)
+		return fmt.Errorf("%s: Length(%s) [%s layout]: %v", what, gen.Canon(g), layoutName(lay), err)
 	}
 	if m.length == 0 {
 		if l != 0 {
@@ -321,11 +319,12 @@ func mapRings(g orb.Geometry, f func(orb.Ring) orb.Ring) orb.Geometry {
 
 func checkMeasure(c Case) error {
 	g := c.G.V
+	lay := c.Layout
 	m, err := measureOf(g)
 	if err != nil {
 		return err
 	}
-	if err := compareMeasure(g, m, "as given"); err != nil {
+	if err := compareMeasure(lay, g, m, "as given"); err != nil {
 		return err
 	}
 	// variants; the oracle's own value for the variant must stand in the stated relation to the
@@ -342,7 +341,7 @@ func checkMeasure(c Case) error {
 		if mv.area.Cmp(want) != 0 {
 			return fmt.Errorf("harness: exact area of the variant (%s) is %v, expected %v", what, f64(mv.area), f64(want))
 		}
-		return compareMeasure(v, mv, what)
+		return compareMeasure(lay, v, mv, what)
 	}
 	if r, ok := g.(orb.Ring); ok {
 		// rotation leaves the exact area and centroid unchanged, reversal negates the area: the expected
@@ -365,7 +364,7 @@ func checkMeasure(c Case) error {
 					}
 				}
 			}
-			return compareMeasure(v, mv, what)
+			return compareMeasure(lay, v, mv, what)
 		}
 		cyc := cycleOf(r)
 		n := len(cyc)
@@ -444,7 +443,8 @@ func distTol(exact, scale float64) float64 { return 1e-9*exact + 1e-14*scale }
 
 func checkDistance(c Case) error {
 	g := c.G.V
-	lg, gd := layout.LayOut(g, curLayout) // orb sees lg, the model sees g
+	lay := c.Layout
+	lg, gd := layout.LayOut(g, lay) // orb sees lg, the model sees g
 	for _, qp := range c.Q {
 		q := qp.Pt()
 		dm, err := distModel(g, q)
@@ -456,11 +456,11 @@ func checkDistance(c Case) error {
 		}
 		d, idx := planar.DistanceFromWithIndex(lg, q)
 		if err := gd.Check(); err != nil {
-			return fmt.Errorf("DistanceFromWithIndex(%s, %v) [%s layout]: %v", gen.Canon(g), q, layoutName(), err)
+			return fmt.Errorf("DistanceFromWithIndex(%s, %v) [%s layout]: %v", gen.Canon(g), q, layoutName(lay), err)
 		}
 		d2 := planar.DistanceFrom(lg, q)
 		if err := gd.Check(); err != nil {
-			return fmt.Errorf("DistanceFrom(%s, %v) [%s layout]: %v", gen.Canon(g), q, layoutName(), err)
+			return fmt.Errorf("DistanceFrom(%s, %v) [%s layout]: %v", gen.Canon(g), q, layoutName(lay), err)
 		}
 		if math.Float64bits(d2) != math.Float64bits(d) {
 			return fmt.Errorf("DistanceFrom(%v) = %v but DistanceFromWithIndex gives %v", q, d2, d)
@@ -555,10 +555,7 @@ func checkCase(c Case) error {
 	if !inDomain(c) || c.K < -64 || c.K > 64 {
 		return nil
 	}
-	lay := c.Layout
 	c = c.scaled()
-	curLayout = lay
-	defer func() { curLayout = "" }()
 	if c.G.V == nil && c.Op != "points" {
 		return fmt.Errorf("harness: nil geometry")
 	}
@@ -577,6 +574,18 @@ func TestReplay(t *testing.T) {
 	_, raw, ok := stats.Replaying()
 	if !ok {
 		t.Skip("no replay file")
+	}
+	if name, _, _ := stats.Replaying(); name == "TestPropConcurrent" {
+		var cs []Case
+		if err := json.Unmarshal(raw, &cs); err != nil {
+			t.Fatal(err)
+		}
+		for k := 0; k < 20; k++ {
+			if err := stats.ParallelErr(len(cs), 100, func(i int) error { return checkCase(cs[i]) }); err != nil {
+				t.Fatalf("replayed concurrent group still fails: %v", err)
+			}
+		}
+		return
 	}
 	var c Case
 	if err := json.Unmarshal(raw, &c); err != nil {
